@@ -1,5 +1,7 @@
 import TT.Model.UdpFlows
 import TT.Lemmas.UdpFlows
+import TT.Model.UdpSocks
+import TT.Lemmas.UdpSocks
 /-!
 # C07  UDP flows: correct routing, isolation, expiry and bounded sockets
 
@@ -255,3 +257,69 @@ example :
   decide
 
 end TT.UdpFlows
+
+/-!
+## The SOCKS5 forwarder's multiplexer
+
+Same pipe, different forwarder: one UDP association per client source address, shared by the flows
+of that source (`TT/Model/UdpSocks.lean`). What the property asks of it: flows never get each
+other's datagrams, closing one flow does not take the association away from its siblings, the
+association is released with its last flow, and no flow error ends the multiplexer.
+-/
+namespace TT.UdpSocks
+open TT.UdpFlows (Meta Cfg Op Obs PipeEntry Kind)
+
+def after (c : Cfg) (ops : List Op) : St := (runFrom c ops).1
+def obsOf (c : Cfg) (ops : List Op) : List Obs := (runFrom c ops).2
+
+/-- **the flow table and the associations' peers hold the same flows**: one association per
+source, none without a peer, so the gauge is the number of client sources with a live flow -/
+theorem socks_tables_coupled (c : Cfg) (ops : List Op) :
+    let s := after c ops
+    (∀ m : Meta, hasPipe s m = s.assocs.any (fun a => a.src == m.src && a.peers.contains m.dst)) ∧
+    (s.assocs.map (·.src)).Nodup ∧ (s.assocs.map (·.id)).Nodup ∧
+    (∀ a ∈ s.assocs, a.peers ≠ [] ∧ a.peers.Nodup) ∧ (s.pipe.map (·.key)).Nodup := by
+  sorry
+
+/-- **closing one flow leaves the association to its siblings**: with two live flows of one
+source, closing one keeps the same association (same socket), now without that peer -/
+theorem sibling_flow_keeps_association (c : Cfg) (ops : List Op) (m m' : Meta) (a : Assoc)
+    (hs : m.src = m'.src) (hd : m.dst ≠ m'.dst)
+    (h1 : hasPipe (after c ops) m = true) (h2 : hasPipe (after c ops) m' = true)
+    (ha : findAssoc (after c ops) m.src = some a) :
+    findAssoc (closeFlow (after c ops) m) m.src = some { a with peers := a.peers.filter (· != m.dst) } ∧
+    m'.dst ∈ a.peers.filter (· != m.dst) := by
+  sorry
+
+/-- ... and the last flow of a source releases it -/
+theorem last_flow_releases_association (c : Cfg) (ops : List Op) (m : Meta) (a : Assoc)
+    (ha : findAssoc (after c ops) m.src = some a) (hp : a.peers = [m.dst]) :
+    findAssoc (closeFlow (after c ops) m) m.src = none ∧
+    (closeFlow (after c ops) m).gauge + 1 = (after c ops).gauge := by
+  sorry
+
+/-- **a datagram is sent to exactly its destination, a reply is labelled with the flow the server
+answered** -/
+theorem socks_routing (c : Cfg) (ops : List Op) :
+    ∀ o ∈ obsOf c ops, (∀ x ∈ o.srv, x.1 = x.2.1.dst) ∧ (∀ x ∈ o.cli, x.1 = x.2.1) := by
+  sorry
+
+/-- **only the client going away ends the multiplexer** -/
+theorem socks_only_close_terminates (c : Cfg) (ops : List Op) (h : ∀ op ∈ ops, op ≠ .close) :
+    (after c ops).finished = false := by
+  sorry
+
+/-- an operation on a flow of another source leaves a source's association untouched -/
+theorem other_sources_undisturbed (c : Cfg) (ops : List Op) (m : Meta) (len src : Nat) (hne : src ≠ m.src) :
+    findAssoc (step c (after c ops) (.dg m len)).1 src = findAssoc (after c ops) src := by
+  sorry
+
+example :
+    let c : Cfg := { timeout := 8000, kinds := [.live, .live, .dns, .dead, .unconn] }
+    let ops := [Op.dg ⟨0, 0⟩ 10, .dg ⟨0, 1⟩ 10, .dg ⟨1, 0⟩ 10, .reply ⟨1, 0⟩ 12, .adv 4000, .dg ⟨0, 1⟩ 10, .adv 6001,
+                .reply ⟨0, 1⟩ 12, .adv 10001]
+    (after c (ops.take 3)).gauge = 2 ∧ (after c (ops.take 7)).gauge = 1 ∧ (after c (ops.take 7)).flows = 1
+    ∧ (obsOf c ops).map (·.cli.length) = [0, 0, 0, 1, 0, 0, 0, 1, 0] ∧ (after c ops).gauge = 0 := by
+  decide
+
+end TT.UdpSocks
